@@ -156,5 +156,27 @@ EXTRA4 = {
  "C19": " Patterns made smaller after their notes existed; cells addressed from the end.",
  "C20": " reflect() queries leave windows and directions as they were; every third project is a falsy application subclass.",
 }
+# round 11
+EXTRA5 = {
+ "C01": " One Sample object may serve two slots.",
+ "C02": " Modules loaded from older-layout files (fewer CVALs) get their newer controllers and MIDI bindings edited; flag bits without a name.",
+ "C03": " Files of other writers with SNAM fields of other sizes are loaded and written again.",
+ "C04": " Instruments as other writers store them (an envelope chunk left out, undocumented CHFF bits, a slot without waveform block).",
+ "C05": " Pattern lists with chains of clones are sources.",
+ "C06": " Both ends of the note map addressed by note; modules renamed to words of the format; blank-padded text fields.",
+ "C07": " Application module subclasses that are falsy / iterable containers take part as operands.",
+ "C08": " Graphs are re-wired after loading files of any stamp (top level, in a MetaModule, in a Sampler's effect).",
+ "C09": " The Sampler's record controllers; members of other enums are taken by number.",
+ "C10": " Application-type values go through files for every unit; a Sampler subclass with added controllers.",
+ "C11": " Options records cut at any length; application aliases of all option declarations are defined before the workload.",
+ "C12": " Very long patterns (up to 2**19 lines); embedded projects inside old outer files.",
+ "C13": " The hostile phase also aims macro bundles at unexposed controllers and hands enum controllers odd spellings.",
+ "C14": " Songs with 300 modules whose header is based on an older version; containerish module subclasses among the attached types.",
+ "C16": " Instruments as other writers store them (see C04).",
+ "C17": " Songs with several patterns / modules of identical content, loaded and cloned; bystanders keep refusing values a lenient load of their type carried; behaviours are part of the bystander snapshot.",
+ "C18": " Injected I/O errors carry real errno values; loads with RAISE_RANGE_ERRORS_ON_READ set.",
+ "C19": " Cells with velocity bytes above 129 and icons of other sizes (as files carry them).",
+ "C20": " Bundles inside a MetaModule that exposes the target; bundles that drive bundles; wide windows on unscaled targets after failed loads.",
+}
 for _pid in CHECKS:
-    CHECKS[_pid]["text"] += EXTRA.get(_pid, "") + EXTRA2.get(_pid, "") + EXTRA3.get(_pid, "") + EXTRA4.get(_pid, "") + " A few shards of every run are replayed with DEBUG logging and under python -O, -W error and -bb."
+    CHECKS[_pid]["text"] += EXTRA.get(_pid, "") + EXTRA2.get(_pid, "") + EXTRA3.get(_pid, "") + EXTRA4.get(_pid, "") + EXTRA5.get(_pid, "") + " In half of the shards the process has seen a few loads fail before the workload starts." + " A few shards of every run are replayed with DEBUG logging and under python -O, -W error and -bb."
